@@ -276,6 +276,9 @@ def literalNode (ls : List Lit) (v : Val) : Raw :=
   if !specialIs "Literal" "_instancecheck_literal" then .raisedOther else
   (match v with | .lit l => .ok (ls.any (litEq l)) | _ => .ok false)
 
+/-- the spelling `_is_instance` sees: `convert_to_typing_types` converts a PEP 585 alias and, recursively, every PEP 585 alias
+    among its arguments (it does not descend into typing constructs), so a node has already been converted (`pc`) exactly
+    when its parent is spelled PEP 585 - whatever happened above the parent -/
 def effSpell (pc : Bool) (sp0 : Spell) : Spell := if pc then .typing else sp0
 
 def typeOfNode (env : Env) (pc : Bool) (sp0 : Spell) (a : Ann) (v : Val) : Raw :=
@@ -310,7 +313,7 @@ def seqNode (env : Env) (pc : Bool) (sp0 : Spell) (o : SeqOrigin) (a : Ann) (v :
   if !originIs ("typing." ++ o.typingName) "_instancecheck_iterable" then .raisedOther else
   if iteratorSkip && env.sub (v.typeOf env) env.iteratorCls then .ok true else
   (match v.iter with
-   | some xs => elemQuant (elem (sp == .pep585)) xs
+   | some xs => elemQuant (elem (sp0 == .pep585)) xs
    | Option.none => .raisedOther)                          -- TypeError: not iterable
 
 def mapNode (env : Env) (pc : Bool) (sp0 : Spell) (o : MapOrigin) (k w : Ann) (v : Val) (key val : Bool → Val → Raw) : Raw :=
@@ -323,8 +326,8 @@ def mapNode (env : Env) (pc : Bool) (sp0 : Spell) (o : MapOrigin) (k w : Ann) (v
   if !originIs ("typing." ++ o.typingName) "_instancecheck_mapping" then .raisedOther else
   (match v.items with
    | some kvs => allRaw (fun kv =>
-       (if itemsChecksKey then key (sp == .pep585) kv.1 else .ok true).and2 fun _ =>
-         (if itemsChecksValue then val (sp == .pep585) kv.2 else .ok true)) kvs
+       (if itemsChecksKey then key (sp0 == .pep585) kv.1 else .ok true).and2 fun _ =>
+         (if itemsChecksValue then val (sp0 == .pep585) kv.2 else .ok true)) kvs
    | Option.none => .raisedOther)
 
 def tupleNode (env : Env) (pc : Bool) (sp0 : Spell) (items : List Ann) (v : Val) (zip : Bool → List Val → Raw) : Raw :=
@@ -336,7 +339,7 @@ def tupleNode (env : Env) (pc : Bool) (sp0 : Spell) (items : List Ann) (v : Val)
   if genericChecksOrigin && !env.sub (v.typeOf env) env.tupleCls then .ok false else
   if !originIs "typing.Tuple" "_instancecheck_tuple" then .raisedOther else
   (match v.tupleItems with
-   | some xs => if tupleLengthTest && xs.length != items.length then .ok false else zip (sp == .pep585) xs
+   | some xs => if tupleLengthTest && xs.length != items.length then .ok false else zip (sp0 == .pep585) xs
    | Option.none => .raisedOther)
 
 def tupleVarNode (env : Env) (pc : Bool) (sp0 : Spell) (a : Ann) (v : Val) (elem : Bool → Val → Raw) : Raw :=
@@ -348,7 +351,7 @@ def tupleVarNode (env : Env) (pc : Bool) (sp0 : Spell) (a : Ann) (v : Val) (elem
   if genericChecksOrigin && !env.sub (v.typeOf env) env.tupleCls then .ok false else
   if !originIs "typing.Tuple" "_instancecheck_tuple" then .raisedOther else
   (match v.tupleItems with
-   | some xs => allRaw (elem (sp == .pep585)) xs
+   | some xs => allRaw (elem (sp0 == .pep585)) xs
    | Option.none => .raisedOther)
 
 def bareNode (env : Env) (o : BareOrigin) (v : Val) : Raw :=
